@@ -6,10 +6,10 @@ import (
 	"io"
 	"os"
 	"os/exec"
-	"time"
 	"sort"
 	"strings"
 	"text/template"
+	"time"
 
 	"github.com/DavidGamba/go-getoptions/text"
 )
@@ -198,6 +198,42 @@ func compare(c *Case, ans []string, r *RealOut) []Mismatch {
 			add("warn", "writer", wt, r.Writer)
 		}
 	}
+	// SetValue calls after the parse: result class (and message) of each, and from then on the values the
+	// model holds after the last of them
+	idx := 1
+	for i := range c.SetVals {
+		if idx >= len(ans) {
+			add("driver", "answer", "", "missing S")
+			return ms
+		}
+		_, sf := parseAnswer(ans[idx])
+		idx++
+		if _, none := sf["none"]; none || f["st"] != "ok" || r.HasErr {
+			continue
+		}
+		want := sf["st"]
+		if want == "err" {
+			want = "err:" + modelErrText(c, sf["err"])
+		}
+		got := "(not called)"
+		if i < len(r.SetValRes) {
+			got = r.SetValRes[i]
+		}
+		if want != got {
+			add("setvalue", fmt.Sprintf("call%d", i), want, got)
+		}
+		// the S answer carries the option values after the call
+		for k := range f {
+			if (k[0] == 'p' && len(k) > 1 && k[1] >= '0' && k[1] <= '9') || (k[0] == 'n' && strings.Contains(k, ".")) {
+				delete(f, k)
+			}
+		}
+		for k, v := range sf {
+			if (k[0] == 'p' && len(k) > 1 && k[1] >= '0' && k[1] <= '9') || (k[0] == 'n' && strings.Contains(k, ".")) {
+				f[k] = v
+			}
+		}
+	}
 	// values and views are compared on success, and on failures that happen before any option is touched
 	// by a partially applied Save (the model does not track partial effects of a failing Save)
 	if f["st"] == "ok" && !r.HasErr {
@@ -229,7 +265,6 @@ func compare(c *Case, ans []string, r *RealOut) []Mismatch {
 			}
 		}
 	}
-	idx := 1
 	if c.Dispatch {
 		if idx >= len(ans) {
 			add("driver", "answer", "", "missing D")
